@@ -206,8 +206,8 @@ def _run(res, rng, tier, driver, work):
                             "key": {"kind": "wrong-network", "fmt": fmt, "main": kind, "backup": bkind, "got": cls_l},
                             "what": f"start-up loaded '{cls_l}' (main {kind} at {k}/{n}, backup {bkind})",
                             "replay": case})
-        # the same through a real gateway's start_persistence() (threaded flavour, Timer faked; the
-        # asyncio flavour goes through the same safe_load_sensors), on a sample of the cases
+        # the same through a real gateway's start_persistence() (threaded flavour with the Timer faked, and
+        # the asyncio flavour on a loop of its own, in turn), on a sample of the cases
         gateway_sample(res, rng, fmt, main, good, bak_good, p_bak, 25 if tier == "quick" else 300)
     res.exhaustive = True
     res.extra["parser_exception_classes"] = classes
@@ -236,6 +236,30 @@ def _run(res, rng, tier, driver, work):
     res.sample({"parser exception classes on damaged files": classes})
 
 
+def start_async(gw):
+    """AsyncTasks.start_persistence() on a loop of its own; the save task it schedules gets one turn and is
+    cancelled.  Returns whether a periodic save was scheduled."""
+    import asyncio
+    loop = asyncio.new_event_loop()
+
+    async def go():
+        await gw.start_persistence()
+        cancel = gw.tasks._cancel_save
+        await asyncio.sleep(0.01)
+        if cancel is not None:
+            try:
+                await cancel()
+            except asyncio.CancelledError:
+                pass
+        return cancel is not None
+    try:
+        out = loop.run_until_complete(go())
+        loop.run_until_complete(loop.shutdown_default_executor())
+        return out
+    finally:
+        loop.close()
+
+
 def gateway_sample(res, rng, fmt, main, good, bak_good, p_bak, count):
     bak = main + ".bak"
     for _ in range(count):
@@ -246,25 +270,40 @@ def gateway_sample(res, rng, fmt, main, good, bak_good, p_bak, count):
         pu.put(bak, bdata)
         for p in (pu.tmp_name(main),):
             pu.put(p, None)
+        flavour = "sync" if _ % 2 == 0 else "async"
         with pu.fake_timers() as FT:
-            gw = pu.make_gateway("2.2", persistence_file=main, flavour="sync")
+            gw = pu.make_gateway("2.2", persistence_file=main, flavour=flavour)
             exc = None
+            scheduled = [False]
             try:
-                gw.start_persistence()
+                if flavour == "sync":
+                    gw.start_persistence()
+                else:
+                    scheduled[0] = start_async(gw)
             except BaseException as e:  # noqa: BLE001
                 exc = type(e).__name__
             got = pu.project(gw.sensors)
             want = p_bak if bdata == bak_good else "-"
             res.evaluations += 1
-            res.count(f"{fmt}:start_persistence")
-            case = {"fmt": fmt, "via": "start_persistence", "main_len": None if mdata is None else len(mdata),
+            res.count(f"{fmt}:start_persistence:{flavour}")
+            case = {"fmt": fmt, "via": "start_persistence", "flavour": flavour,
+                    "main_len": None if mdata is None else len(mdata),
                     "backup_len": None if bdata is None else len(bdata)}
+            if flavour == "async" and not exc and got == want and not scheduled[0]:
+                res.oracle_failures.append({"key": {"kind": "start_persistence-not-scheduled", "fmt": fmt},
+                                            "what": "start_persistence() did not schedule the periodic save",
+                                            "replay": case})
+                continue
+            if flavour == "async" and not exc and got == want:
+                continue
             if exc:
                 res.oracle_failures.append({"key": {"kind": "start_persistence-raises", "fmt": fmt, "exc": exc},
                                             "what": f"start_persistence() raised {exc}", "replay": case})
             elif got != want:
                 res.oracle_failures.append({"key": {"kind": "start_persistence-wrong-network", "fmt": fmt},
-                                            "what": "start_persistence() loaded neither the intact backup nor nothing",
+                                            "what": f"start_persistence() of the {flavour} gateway loaded "
+                                                    f"{'nothing beside an intact backup' if got == '-' else 'neither the intact backup nor nothing'} "
+                                                    f"(main file: {'absent' if mdata is None else str(len(mdata)) + ' damaged bytes'})",
                                             "replay": case})
             elif not (FT.instances and FT.instances[-1].started):
                 res.oracle_failures.append({"key": {"kind": "start_persistence-not-scheduled", "fmt": fmt},
@@ -291,6 +330,24 @@ def replay(payload):
         sensors = states[r.get("state", 0)]
         good = pu.save_bytes(sensors, work, fmt)
         main = os.path.join(work, f"state.{fmt}")
+        if r.get("via") == "start_persistence":
+            other = pu.direct_state(random.Random(5), size=2, exotic=False)
+            bak_good = pu.save_bytes(other, work, fmt)
+            pu.put(main, None if r["main_len"] is None else (good[:r["main_len"]] if r["main_len"] < len(good) else b"\x00" * r["main_len"]))
+            pu.put(main + ".bak", None if r["backup_len"] is None else bak_good[:r["backup_len"]])
+            flavour = r.get("flavour", "sync")
+            exc = None
+            with pu.fake_timers():
+                gw = pu.make_gateway("2.2", persistence_file=main, flavour=flavour)
+                try:
+                    gw.start_persistence() if flavour == "sync" else start_async(gw)
+                except BaseException as e:  # noqa: BLE001
+                    exc = type(e).__name__
+            pu.put(os.path.join(work, f"b.{fmt}"), bak_good)
+            want = pu.project(pu.fresh_load(os.path.join(work, f"b.{fmt}"))[1]) if r["backup_len"] == len(bak_good) else "-"
+            got = pu.project(gw.sensors)
+            print(f"start_persistence() of the {flavour} gateway: raised {exc}; loaded {got[:300]!r}; expected {want[:300]!r}")
+            return 1 if exc or got != want else 0
         k = r.get("k", 0)
         kind = r.get("main", r.get("damage", "trunc"))
         data = good[:k] if kind == "trunc" else (b"\x00" * len(good) if kind == "zero" else good)
